@@ -69,6 +69,10 @@ def run(ctx):
               "find all @/\\w\\W\\b\\B/", "find all @/\\k/", "find all @/\\kx/", "find all @/\\k<x/", "find all @/(?=a)/", "find all @/(?!a)/", "find all @/(?<=a)/", "find all @/(?<!a)/", "find all @/(?<n/",
               "find all @/(?:a/", "find all @/a{3/", "find all @/a{3,/", "find all @/a{3,4/", "find all @/a{3,4x/", "find all @/a{x}/", "find all @/[a-/", "find all @/[a/", "find all @/[\\/", "find all @/\\/"]:
         add(s, "named in the property")
+    # definitions that generate nothing, referenced later (once, twice, from another definition, in find and replace)
+    for empty in ("", "()", "@//", "exactly 0 'a'", "begin return true end", "(())", "maybe ()"):
+        for use in ("find all e", "find all 'a' e", "find all e e", "replace all e with 'x'", "find all maybe e 'a'", "set b to pattern e\nfind all b", "set b to pattern e 'a' e\nfind all b e"):
+            add("set e to pattern %s\n%s" % (empty, use), "empty definition referenced")
     # very short sources, byte by byte: every single byte, every pair of the bytes that begin or continue a multi-byte character, a byte-order mark
     # in front of a program and every prefix of that (sources also go through CompileFile, which reads them from disk)
     for b in range(256):
